@@ -107,6 +107,11 @@ class C03System(BuilderSystem):
                         ops.append([kind, pre, {ax: v}])
                 for v in ladder(lo[1], hi[1]):
                     ops.append([kind, pre, {"x": mid[0], "y": v, "z": mid[2]}])
+                # the same requests as a positional sequence and as a Point object, upper-case keywords
+                for v in (lo[2], hi[2], math.nextafter(hi[2], math.inf), hi[2] + 1000.5, NAN):
+                    ops.append([kind, pre + [[None, None, v]], {}])
+                    ops.append([kind, pre + [["P", mid[0], mid[1], v]], {}])
+                    ops.append([kind, pre, {"Z": v, "X": mid[0]}])
             ops.append(["move", [], {"x": 1, "y": -3}])
             ops.append(["rapid", [], {"x": -1, "z": 0.5}])
             if not self.translate:   # G92 also breaks the machine = transform(builder) relation
@@ -157,6 +162,13 @@ class C03System(BuilderSystem):
         """True when the call clearly asks for an out-of-range value (only unambiguous cases)."""
         name = op[0]
         kw = {k.upper(): v for k, v in (op[2] if len(op) > 2 else {}).items()}
+        args = op[1] if len(op) > 1 else []
+        pos = args[1] if (name == "probe" and len(args) > 1) else (args[0] if (name != "probe" and args) else None)
+        if isinstance(pos, list):
+            vals = pos[1:] if pos and pos[0] == "P" else pos
+            for ax, v in zip(("X", "Y", "Z"), vals):
+                if v is not None:
+                    kw[ax] = v
         b = st.bounds
         why = []
         if name in ("move", "rapid", "probe", "move_absolute", "rapid_absolute"):
